@@ -166,7 +166,7 @@ class SizeKeys(Case):
 
 
 class GeneAggregates(Case):
-    props = ("C20",)
+    props = ("C20", "C16")
     func = GENE + ".__init__"
 
     def __init__(self, pattern):
@@ -208,6 +208,11 @@ class GeneAggregates(Case):
                 obs_loc(r[6])[:2], o(r[7])]
 
 
+def _spec_bin(a, b):
+    from .c16_bins import spec_bin
+    return spec_bin(a, b, 0)
+
+
 def _min(xs):
     m = xs[0]
     for x in xs[1:]:
@@ -223,16 +228,17 @@ def _max(xs):
 
 
 class FeatureCollectionAggregates(Case):
-    props = ("C20",)
+    props = ("C20", "C16")
     func = FCOL + ".__init__"
     name = "FeatureIntervalCollection aggregates[2 features]"
     call = ("(lambda c: (c.start, c.end, c.is_coding, sorted(c.feature_types), c.get_primary_feature(), "
-            "c.get_merged_feature().chromosome_location))(FeatureIntervalCollection(kids))")
+            "c.get_merged_feature().chromosome_location, c.bin))(FeatureIntervalCollection(kids))")
     module = "gene.feature"
     raises = {"ValidationException": lambda i: count_true([c.flag for c in i.info]) >= 2}
     ensures = {
         "span": lambda i, r: And(r[0] == _min([c.s for c in i.info]), r[1] == _max([c.e for c in i.info])),
         "never-coding": lambda i, r: r[2] is False,
+        "bin-of-span": lambda i, r: r[6] == _spec_bin(_min([c.s for c in i.info]), _max([c.e for c in i.info])),
         "types-are-union": lambda i, r: list(r[3]) == ["shared", "type0", "type1"],
         "primary": lambda i, r: And(*[Implies(expected_primary(i.info) == j, r[4] is i.kids[j]) for j in range(2)]),
         "merged-feature-is-union": lambda i, r: Iff(covers_pos(r[5], i.p),
@@ -251,7 +257,7 @@ class FeatureCollectionAggregates(Case):
     def observe(self, r):
         from pyvc.check import default_observe as o
         from .c02_single import obs_loc
-        return [o(r[0]), o(r[1]), o(r[2]), list(r[3]), getattr(r[4], "feature_id", None), obs_loc(r[5])[:2]]
+        return [o(r[0]), o(r[1]), o(r[2]), list(r[3]), getattr(r[4], "feature_id", None), obs_loc(r[5])[:2], o(r[6])]
 
 
 CASES = [FindPrimary((True, True)), FindPrimary((True, False)), FindPrimary((False, False)),
